@@ -140,18 +140,8 @@ fn c11_string_table_decoder_bounded_allocation() {
     if kani::any() { section_one::<4>(1, minor); } else { section_one::<8>(1, minor); }
 }
 
-// @verif prop=C11 kernel=K2 tiers=thorough timeout=3000 unwind=1 stubbing=yes mem=16 replay_native=stbc-string-table loops=decode_section_data:4,decode_type_table:4,decode_type_entry:4,decode_string_table:4,Iterator:4,from_utf8:6,run_utf8_validation:6,new:26,drop_glue::<[:4,memcmp:6,compare_bytes:6,to_vec:14
-// @verif what=type_table section decoder (section id 2) on arbitrary 4- and 8-byte payloads: Ok/Err, never a panic or out-of-bounds read, every Vec::with_capacity(count) request proportional to the payload
-// @verif fns=bytecode::decode::decode_section_data (section id 2), bytecode::reader::BytecodeReader
-// @verif bound=every payload of 4 and of 12 bytes, format minor version 0 and 1
-// @verif stub=alloc::vec::Vec::<T>::with_capacity -> allocation monitor; alloc::fmt::format -> empty String
-#[kani::proof]
-#[kani::stub(std::vec::Vec::with_capacity, monitored_with_capacity)]
-#[kani::stub(alloc::fmt::format, crate::common::empty_format)]
-fn c11_section_type_table_decoder_total() {
-    // probed: a 12-byte payload exhausts 16 GB for this section kind
-    let minor: u16 = if kani::any() { 0 } else { 1 };
-    if kani::any() { section_one::<4>(2, minor); } else { section_one::<8>(2, minor); }
+// (probed, not registered: the TYPE_TABLE section decoder exhausts 16 GB even for 4- and 8-byte payloads - offsets table +
+//  nested entry readers; outside the claim.)
 }
 
 // @verif prop=C11 kernel=K2 tiers=thorough timeout=3000 unwind=1 stubbing=yes mem=16 replay_native=stbc-string-table loops=decode_section_data:4,decode_type_table:4,decode_type_entry:4,decode_string_table:4,Iterator:4,from_utf8:6,run_utf8_validation:6,new:26,drop_glue::<[:4,memcmp:6,compare_bytes:6,to_vec:14
